@@ -2,6 +2,8 @@
 
 package text
 
+import "github.com/tsawler/tabula/graphicsstate"
+
 // Add-only exports for the verification harness (built only with -tags verif).
 
 // VerifDeduplicateFragments runs (*Extractor).deduplicateFragments on the given
@@ -43,4 +45,16 @@ func VerifLineSpaces(ordered []TextFragment, dir Direction) []bool {
 		out = append(out, e.shouldInsertSpaceSmart(ordered[i], ordered[i+1], d, m))
 	}
 	return out
+
+// VerifXObjectState reports the extractor's Form XObject accounting after a call of
+// Extract: the content charged so far (xobjectBytes), the current nesting depth
+// (xobjectDepth) and the number of saved graphics states.
+func VerifXObjectState(e *Extractor) (bytes, depth, saved int) {
+	return e.xobjectBytes, e.xobjectDepth, graphicsstate.VerifStackLen(e.gs)
+}
+
+// VerifXObjectLimits returns maxXObjectBytes, xobjectCallCost and the nesting limit of
+// a new extractor.
+func VerifXObjectLimits() (maxBytes, callCost, maxDepth int) {
+	return maxXObjectBytes, xobjectCallCost, NewExtractor().maxXObjectDepth
 }
